@@ -140,6 +140,7 @@ func main() {
 		os.Exit(2)
 	}
 	e.tier = *tier
+	e.prop = *prop
 	e.verbose = *verbose
 	e.timeoutS = 10
 	if *tier == "thorough" {
@@ -240,6 +241,16 @@ func main() {
 				}
 			}
 			if !ok {
+				continue
+			}
+		}
+		if *prop == "C19" && len(o.Props) == 0 && !o.Vacuous {
+			// C19 (instance independence) reports the footprint side of every function it covers: write
+			// obligations, frames, lock discipline; the functional obligations of the same functions are
+			// reported under the properties they belong to
+			switch o.Kind {
+			case "writes", "frame", "xframe", "guarded", "translates", "contract.resolves", "exists", "missing", "immutable":
+			default:
 				continue
 			}
 		}
